@@ -90,7 +90,9 @@ def _parse_comments(tokens: TokenIterator):
     """
     metadata = {}
     while tokens.peek().type == 'COMMENT':
-        comment = tokens.next().text
+        # a line given with its own terminator (e.g., from a list of
+        # lines or a file handle) must not leak it into a key
+        comment = tokens.next().text.rstrip('\r\n')
         while comment:
             comment, found, meta = comment.rpartition('::')
             if found:
